@@ -24,6 +24,7 @@ type Features struct {
 	AllSol     bool // findall/bagof/setof
 	Write      bool // write/1 of small atoms as progress markers
 	Lib        bool // recursive library templates (app/3, mem/2, nat/1, len/2)
+	Strings    bool // double-quoted strings among the terms (they denote lists of the characters a, b, c)
 }
 
 // Program is a generated case: clauses, dynamic declarations, one query.
@@ -89,6 +90,10 @@ func (x *g) term(d int) *rt.Term {
 			es[i] = x.term(0)
 		}
 		return rt.List(es, nil)
+	}
+	if x.f.Strings && x.p(4, "string") {
+		// a double-quoted string: the list of its characters (the default flag) in the engine's compact representation
+		return Str([]string{"ab", "a", "abc", "ba", ""}[x.n(0, 4, "strtext")])
 	}
 	k := x.n(0, 11, "termkind")
 	switch {
@@ -618,7 +623,7 @@ func ClauseText(c *rt.Term) string {
 			names[id] = fmt.Sprintf("_V%d", id)
 		}
 	}
-	return c.Text(names) + "."
+	return TextStr(c, names) + "."
 }
 
 // Text renders the program as source text.
@@ -669,7 +674,7 @@ func (p *Program) QueryText() (string, []string) {
 		names[id] = fmt.Sprintf("Q%d", id)
 		ns = append(ns, names[id])
 	}
-	return p.Query.Text(names) + ".", ns
+	return TextStr(p.Query, names) + ".", ns
 }
 
 func (p *Program) String() string {
